@@ -94,6 +94,9 @@ type State struct {
 	// range-over-map loops: the set of keys already delivered by each active iterator
 	// ((Array K Bool) term; copy on write). Lets a loop invariant speak about "visited(k)".
 	rangeVis map[*rangeState]string
+	// append: "" (decide here, forking the path), or the branch a forked state has to take
+	// when it re-executes the append it was forked at: "fresh"
+	appendMode string
 }
 
 func (st *State) setVis(rs *rangeState, t string) {
@@ -892,6 +895,23 @@ func (e *Engine) Verify(fn *ssa.Function, c *Contract) *FuncResult {
 			}
 			if !ok {
 				res.Errors = append(res.Errors, fmt.Sprintf("contract has `call %d invariant` but call #%d of %s is not a call that iterates a callback", k, k, fnKey(fn)))
+			}
+		}
+		for name := range c.AtAsserts {
+			ok := false
+			for _, b := range fn.Blocks {
+				for _, ins := range b.Instrs {
+					if ci, isCall := ins.(ssa.CallInstruction); isCall {
+						if callee := ci.Common().StaticCallee(); callee != nil && shortName(callee) == name {
+							ok = true
+						} else if ci.Common().IsInvoke() && strings.HasSuffix(name, "."+ci.Common().Method.Name()) {
+							ok = true
+						}
+					}
+				}
+			}
+			if !ok {
+				res.Errors = append(res.Errors, fmt.Sprintf("contract has `at %s assert` but %s does not call %s", name, fnKey(fn), name))
 			}
 		}
 		nLoops := len(e.loops(fn).headers)
